@@ -140,6 +140,11 @@ class HashClient:
             client.client_class = self.client_class
 
         key = self._make_client_key(server)
+        # a server that comes back (or is added twice) gets a new client; the
+        # one it replaces may still hold an open connection
+        replaced = self.clients.get(key)
+        if replaced is not None:
+            replaced.close()
         self.clients[key] = client
         self.hasher.add_node(key)
 
